@@ -167,7 +167,8 @@ class SensitiveWordAnonymizer(object):
             words = [
                 (
                     w
-                    if w in self.conflicting_words
+                    # conflicting_words are lower-case, e.g. user-supplied "MyRouter" is stored as "myrouter"
+                    if w.lower() in self.conflicting_words
                     else self.sens_regex.sub(self._lookup_anon_word, w)
                 )
                 for w in words
